@@ -1,44 +1,113 @@
 import CollectionsC.Proofs.ArrayMem
-/-! # C14 (array part) — `CC_Array` uses only its configured allocators
+/-! # C14 (array part) — `CC_Array` uses only the allocator triple it was given
 
-Statements only (helpers: `Proofs/ArrayMem.lean`).  In the model every `mem_alloc`/`mem_calloc`/
-`mem_free` of `cc_array.c` is `Mem.alloc`/`Mem.free`, the configured triple; `Mem.libc` counts what
-goes through the C library instead.  `libc_invariant`: no function of the array changes `libc` —
-constructor, every call of the C01 vocabulary, the builders of derived arrays (which inherit the
-source's triple), iterator insertions, destructor.  `allocator_independent`: status, out-values and
-resulting state depend on the ledger only through its schedule of refusals — the array behaves on a
-pool exactly as on `malloc` as long as the pool does not refuse.  (The one documented exception is
-outside the model's ledger on purpose: `cc_array_remove_all_free` releases the *elements* with the C
+Statements only (helpers: `Proofs/ArrayMem.lean`).  The model's array carries the triple it copied
+from its configuration (`Arr.triple`: `.conf` = the caller's `mem_alloc/mem_calloc/mem_free`,
+`.libc` = the C library's, what `cc_array_new` configures); every allocation and release of the model
+goes through `Mem.allocT a.triple`/`Mem.freeT a.triple`, and the two allocators keep separate
+counters in the ledger (`live/nalloc/nfree` vs `liveLibc/lalloc/lfree/libc`).  So the statements
+below are falsifiable: a model function that used the wrong triple (as the repaired defects D10, L4,
+S1, Q3 did in C) would move the other allocator's counters.
+
+* `conf_uses_only_conf`: an array on the configured triple never touches the C-library counters;
+* `default_uses_only_libc`: an array on the C-library triple never touches the configured counters,
+  the schedule of refusals, and is never refused;
+* `derived_inherits_triple`: sub-arrays, copies and filter results carry the source's triple (and are
+  allocated through it);
+* `allocator_independent`: status, out-values and resulting state depend on the ledger only through
+  its schedule of refusals — the array behaves on a pool exactly as on `malloc` as long as the pool
+  does not refuse.
+(Outside the model's ledger on purpose: `cc_array_remove_all_free` releases the *elements* with the C
 library's `free`, as its documentation says.) -/
 namespace CC.Properties.C14Array
 open CC
 open CC.Spec.Seq (Cfg Op Out IterOp)
 
-/-- one call of the C01 vocabulary never touches the C library allocator -/
-theorem libc_invariant (cfg : Cfg) (a : Arr) (op : Op) (m : Mem) (hinv : a.Inv) :
-    (a.step cfg op m).2.2.libc = m.libc := (Arr.step_led cfg a op m hinv).1
+/-- one call of the C01 vocabulary on an array of the configured triple: no C-library event -/
+theorem conf_uses_only_conf (cfg : Cfg) (a : Arr) (op : Op) (m : Mem) (hinv : a.Inv) (ht : a.triple = .conf) :
+    (a.step cfg op m).2.2.libc = m.libc ∧ (a.step cfg op m).2.2.liveLibc = m.liveLibc ∧
+    (a.step cfg op m).2.2.lalloc = m.lalloc ∧ (a.step cfg op m).2.2.lfree = m.lfree := by
+  have := (Arr.step_led cfg a op m hinv).2.1
+  rw [ht] at this
+  exact ⟨this.2.1, this.1, this.2.2.1, this.2.2.2⟩
 
-/-- nor does any history -/
-theorem history_libc_invariant (cfg : Cfg) (ops : List Op) (a : Arr) (m : Mem) (hinv : a.Inv)
-    (hsort : ∀ xs, (cfg.sortFn xs).length = xs.length) : (a.run cfg ops m).2.2.libc = m.libc :=
-  (Arr.run_led cfg ops a m hinv hsort).1
+/-- one call on an array of the C-library triple (`cc_array_new`): the configured allocator is not
+used, its schedule is not consumed, and the call cannot be refused -/
+theorem default_uses_only_libc (cfg : Cfg) (a : Arr) (op : Op) (m : Mem) (hinv : a.Inv) (ht : a.triple = .libc) :
+    (a.step cfg op m).2.2.live = m.live ∧ (a.step cfg op m).2.2.nalloc = m.nalloc ∧
+    (a.step cfg op m).2.2.nfree = m.nfree ∧ (a.step cfg op m).2.2.sched = m.sched ∧
+    (a.step cfg op m).2.2.nrefused = m.nrefused ∧ (a.step cfg op m).1.st ≠ some .errAlloc := by
+  obtain ⟨_, l2, l3, l4⟩ := Arr.step_led cfg a op m hinv
+  rw [ht] at l2
+  have hr := l4 ht
+  refine ⟨l2.1, l2.2.1, l2.2.2.1, l2.2.2.2, ?_, by simpa using hr⟩
+  rw [hr] at l3; simpa using l3
 
-/-- constructor, destructor and the derived-array builders -/
-theorem lifecycle_libc_invariant (a : Arr) (cap b e : Nat) (grow : Nat → Nat) (exGe : Nat → Bool)
-    (cp : Nat → Nat) (p : Nat → Bool) (m : Mem) :
-    (Arr.new cap grow exGe m).2.2.libc = m.libc ∧ (a.destroy m).libc = m.libc ∧
-    (a.subarray b e m).2.2.libc = m.libc ∧ (a.copyShallow m).2.2.libc = m.libc ∧
-    (a.copyDeep cp m).2.2.2.libc = m.libc ∧ (a.filter p m).2.2.2.libc = m.libc :=
-  ⟨(Arr.new_led cap grow exGe m).1, (Arr.destroy_led a m).1, (Arr.subarray_led a b e m).1,
-   (Arr.copyShallow_led a m).1, (Arr.copyDeep_led cp a m).1, (Arr.filter_led p a m).1⟩
+/-- histories: only the array's own allocator is ever used, and the triple never changes -/
+theorem history_uses_only_own_triple (cfg : Cfg) (ops : List Op) (a : Arr) (m : Mem) (hinv : a.Inv)
+    (hsort : ∀ xs, (cfg.sortFn xs).length = xs.length) :
+    Arr.Foreign a.triple m (a.run cfg ops m).2.2 ∧ (a.run cfg ops m).2.1.triple = a.triple :=
+  ⟨(Arr.run_led cfg ops a m hinv hsort).2.1, (Arr.run_led cfg ops a m hinv hsort).2.2.2⟩
 
-/-- iterator calls, including insertions that re-allocate, and the zip insertion on two arrays -/
-theorem iter_libc_invariant (a : Arr) (it : ArrIter) (c : Spec.Seq.Cursor) (op : IterOp) (m : Mem) (hinv : a.Inv)
-    (hs : Arr.Sim a it c) : (a.iterStep it op m).2.2.2.libc = m.libc := (Arr.iterStep_led a it op m hinv c hs).1
+/-- constructor (triple `t`), destructor and the derived-array builders (source's triple) -/
+theorem lifecycle_uses_only_own_triple (a : Arr) (cap b e : Nat) (grow : Nat → Nat) (exGe : Nat → Bool)
+    (cp : Nat → Nat) (p : Nat → Bool) (m : Mem) (t : Triple) :
+    Arr.Foreign t m (Arr.new cap grow exGe m t).2.2 ∧ Arr.Foreign a.triple m (a.destroy m) ∧
+    Arr.Foreign a.triple m (a.subarray b e m).2.2 ∧ Arr.Foreign a.triple m (a.copyShallow m).2.2 ∧
+    Arr.Foreign a.triple m (a.copyDeep cp m).2.2.2 ∧ Arr.Foreign a.triple m (a.filter p m).2.2.2 :=
+  ⟨(Arr.new_led cap grow exGe m t).2.1, Arr.destroy_foreign a m, (Arr.subarray_led a b e m).2.1,
+   (Arr.copyShallow_led a m).2.1, (Arr.copyDeep_led cp a m).2.1, (Arr.filter_led p a m).2.1⟩
 
-theorem zip_add_libc_invariant (a1 a2 : Arr) (it : ArrIter) (x y : Nat) (m : Mem) (h1 : a1.Inv) (h2 : a2.Inv)
-    : (Arr.zipAdd a1 a2 it x y m).2.2.2.2.libc = m.libc :=
-  (Arr.zipAdd_led a1 a2 it x y m h1 h2).1
+/-- **derived arrays inherit the triple** (`sub_ar->mem_alloc = ar->mem_alloc` …), and the constructor
+stores the one it was given -/
+theorem derived_inherits_triple (a : Arr) (cap b e : Nat) (grow : Nat → Nat) (exGe : Nat → Bool) (cp : Nat → Nat)
+    (p : Nat → Bool) (m : Mem) (t : Triple) (r : Arr) :
+    ((Arr.new cap grow exGe m t).2.1 = some r → r.triple = t) ∧
+    ((a.subarray b e m).2.1 = some r → r.triple = a.triple) ∧
+    ((a.copyShallow m).2.1 = some r → r.triple = a.triple) ∧
+    ((a.copyDeep cp m).2.1 = some r → r.triple = a.triple) ∧
+    ((a.filter p m).2.1 = some r → r.triple = a.triple) := by
+  refine ⟨fun h => ?_, fun h => ?_, fun h => ?_, fun h => ?_, fun h => ?_⟩
+  · by_cases hv : cap = 0 ∨ exGe (Gen.CC_MAX_ELEMENTS / cap) = true ∨ cap > Gen.CC_MAX_ELEMENTS / 8
+    · rw [Arr.new_invalid_eq cap grow exGe m t hv] at h; simp at h
+    · rw [Arr.new_eq cap grow exGe m t (fun h => hv (Or.inl h)) (fun h => hv (Or.inr (Or.inl h)))
+        (fun h => hv (Or.inr (Or.inr h)))] at h
+      split at h
+      · simp only [Option.some.injEq] at h; rw [← h]
+      · simp at h
+  · unfold Arr.subarray at h
+    split at h
+    · simp at h
+    · simp only at h
+      split at h
+      · simp at h
+      · simp only [Option.some.injEq] at h; rw [← h]
+  · unfold Arr.copyShallow at h
+    simp only at h
+    split at h
+    · simp at h
+    · simp only [Option.some.injEq] at h; rw [← h]
+  · unfold Arr.copyDeep at h
+    simp only at h
+    split at h
+    · simp at h
+    · simp only [Option.some.injEq] at h; rw [← h]
+  · unfold Arr.filter at h
+    split at h
+    · simp at h
+    · simp only at h
+      split at h
+      · simp at h
+      · simp only [Option.some.injEq] at h; rw [← h]
+
+/-- iterator calls, including insertions that re-allocate; the zip insertion on two arrays of one triple -/
+theorem iter_uses_only_own_triple (a : Arr) (it : ArrIter) (c : Spec.Seq.Cursor) (op : IterOp) (m : Mem) (hinv : a.Inv)
+    (hs : Arr.Sim a it c) : Arr.Foreign a.triple m (a.iterStep it op m).2.2.2 :=
+  (Arr.iterStep_led a it op m hinv c hs).2.1
+
+theorem zip_add_uses_only_own_triple (a1 a2 : Arr) (it : ArrIter) (x y : Nat) (m : Mem) (h1 : a1.Inv) (h2 : a2.Inv)
+    (ht : a2.triple = a1.triple) : Arr.Foreign a1.triple m (Arr.zipAdd a1 a2 it x y m).2.2.2.2 :=
+  (Arr.zipAdd_led a1 a2 it x y m h1 h2 ht).2.1
 
 /-- **allocator independence, one call**: two ledgers with the same schedule of refusals give the same
 report and the same resulting state (and the same remaining schedule) -/
@@ -48,8 +117,7 @@ theorem allocator_independent (cfg : Cfg) (a : Arr) (op : Op) (m1 m2 : Mem) (hin
 
 /-- **allocator independence, histories** -/
 theorem history_allocator_independent (cfg : Cfg) (ops : List Op) (a : Arr) (m1 m2 : Mem) (hinv : a.Inv)
-    (hsort : ∀ xs, (cfg.sortFn xs).length = xs.length)
-    (h : m1.sched = m2.sched) :
+    (hsort : ∀ xs, (cfg.sortFn xs).length = xs.length) (h : m1.sched = m2.sched) :
     (a.run cfg ops m1).1 = (a.run cfg ops m2).1 ∧ (a.run cfg ops m1).2.1 = (a.run cfg ops m2).2.1 :=
   ⟨(Arr.run_indep cfg ops a m1 m2 hinv hsort h).1, (Arr.run_indep cfg ops a m1 m2 hinv hsort h).2.1⟩
 
@@ -60,16 +128,15 @@ theorem runs_on_any_nonrefusing_allocator (cfg : Cfg) (ops : List Op) (a : Arr) 
     (h1 : m1.sched = []) (h2 : m2.sched = []) : (a.run cfg ops m1).1 = (a.run cfg ops m2).1 :=
   (Arr.run_indep cfg ops a m1 m2 hinv hsort (by rw [h1, h2])).1
 
-/-- constructor and builders: same object (or none) under the same schedule — derived arrays are
-allocated through the source's triple -/
+/-- constructor and builders: same object (or none) under the same schedule -/
 theorem lifecycle_allocator_independent (a : Arr) (cap b e : Nat) (grow : Nat → Nat) (exGe : Nat → Bool)
-    (cp : Nat → Nat) (p : Nat → Bool) (m1 m2 : Mem) (h : m1.sched = m2.sched) :
-    ((Arr.new cap grow exGe m1).1 = (Arr.new cap grow exGe m2).1 ∧ (Arr.new cap grow exGe m1).2.1 = (Arr.new cap grow exGe m2).2.1) ∧
+    (cp : Nat → Nat) (p : Nat → Bool) (m1 m2 : Mem) (t : Triple) (h : m1.sched = m2.sched) :
+    ((Arr.new cap grow exGe m1 t).1 = (Arr.new cap grow exGe m2 t).1 ∧ (Arr.new cap grow exGe m1 t).2.1 = (Arr.new cap grow exGe m2 t).2.1) ∧
     ((a.subarray b e m1).1 = (a.subarray b e m2).1 ∧ (a.subarray b e m1).2.1 = (a.subarray b e m2).2.1) ∧
     ((a.copyShallow m1).1 = (a.copyShallow m2).1 ∧ (a.copyShallow m1).2.1 = (a.copyShallow m2).2.1) ∧
     ((a.copyDeep cp m1).1 = (a.copyDeep cp m2).1 ∧ (a.copyDeep cp m1).2.1 = (a.copyDeep cp m2).2.1) ∧
     ((a.filter p m1).1 = (a.filter p m2).1 ∧ (a.filter p m1).2.1 = (a.filter p m2).2.1) :=
-  ⟨⟨(Arr.new_indep cap grow exGe m1 m2 h).1, (Arr.new_indep cap grow exGe m1 m2 h).2.1⟩,
+  ⟨⟨(Arr.new_indep cap grow exGe m1 m2 t h).1, (Arr.new_indep cap grow exGe m1 m2 t h).2.1⟩,
    ⟨(Arr.subarray_indep a b e m1 m2 h).1, (Arr.subarray_indep a b e m1 m2 h).2.1⟩,
    ⟨(Arr.copyShallow_indep a m1 m2 h).1, (Arr.copyShallow_indep a m1 m2 h).2.1⟩,
    ⟨(Arr.copyDeep_indep cp a m1 m2 h).1, (Arr.copyDeep_indep cp a m1 m2 h).2.1⟩,
@@ -85,5 +152,17 @@ theorem iter_add_allocator_independent (a1 a2 : Arr) (it : ArrIter) (x y : Nat) 
   obtain ⟨e1, e2, e3, _⟩ := Arr.iterAdd_indep a1 it x m1 m2 h
   obtain ⟨f1, f2, f3, f4, _⟩ := Arr.zipAdd_indep a1 a2 it x y m1 m2 h
   exact ⟨⟨e1, e2, e3⟩, ⟨f1, f2, f3, f4⟩⟩
+
+/-! Non-vacuity, and the statements are falsifiable: the same growth step moves the configured counters
+on a `.conf` array and the C-library counters on a `.libc` array — and only those. -/
+example :
+    let m : Mem := { live := 2, liveLibc := 2 }
+    let ac : Arr := Arr.mk 1 1 [5] (fun c => 2 * c) .conf
+    let al : Arr := Arr.mk 1 1 [5] (fun c => 2 * c) .libc
+    ac.Inv ∧ al.Inv ∧
+    ((ac.add 6 m).2.2.nalloc, (ac.add 6 m).2.2.nfree, (ac.add 6 m).2.2.lalloc, (ac.add 6 m).2.2.lfree, (ac.add 6 m).2.2.libc) = (1, 1, 0, 0, 0) ∧
+    ((al.add 6 m).2.2.nalloc, (al.add 6 m).2.2.nfree, (al.add 6 m).2.2.lalloc, (al.add 6 m).2.2.lfree, (al.add 6 m).2.2.libc) = (0, 0, 1, 1, 2) ∧
+    (al.add 6 { m with sched := [true] }).1 = .ok ∧ (ac.add 6 { m with sched := [true] }).1 = .errAlloc := by
+  decide
 
 end CC.Properties.C14Array
